@@ -9,7 +9,9 @@ from .. import tlc
 
 MODULE = "sim/Params.tla"
 # parameter names in SORTED order = order of the grid entries; they are ADDED in another order
-NAMES = ["a_first", "b_second", "c_third"]
+# Python sorted() order ("p10" before "p2"): a natural-sort order would differ
+NAMES = ["p10_first", "p2_second", "q_third"]
+assert NAMES == sorted(NAMES)
 ADD_ORDER = [1, 2, 0]
 # value ids -> Python values; increasing in the id so that np.union1d sorts like the ids.
 # parameter 1 holds floats that are tiny and close to each other (tolerance-based matching would confuse them)
